@@ -18,7 +18,7 @@ Definition un_graph (s : sx) : option graph :=
   | SL [ns; es] =>
       match un_list un_zpair ns,
             un_list (fun e => match e with
-                              | SL [SZ d; l] => match un_list un_zpair l with Some l => Some (d, l) | None => None end
+                              | SL [SZ d; l] => match un_list un_zpair l with Some l => Some (d, map (fun e => (fst e, f_canon (snd e))) l) | None => None end
                               | _ => None end) es with
       | Some ns, Some es => Some (mkGraph ns es)
       | _, _ => None
